@@ -151,13 +151,24 @@ func collect(v any, set func(any), del func(), out *[]nodeRef) {
 }
 
 var confusions = []any{nil, 5, -1.5, true, "", "a string", []any{}, []any{1, "x"}, []any{map[string]any{"k": "v"}}, map[string]any{}, map[string]any{"unexpected": []any{1}},
-	[]any{nil}, map[string]any{"authenticator": 5}, "{{ bad template", "/**/x", 1e30}
+	[]any{nil}, map[string]any{"authenticator": 5}, "{{ bad template", "/**/x", 1e30,
+	// YAML mappings whose keys are not strings
+	map[any]any{1: "x"}, map[any]any{true: 1, "a": 2}, map[any]any{1.5: []any{}}, []any{map[any]any{0: map[any]any{2: 3}}}}
+
+var oddKeys = []any{0, 1, -7, true, 2.5}
 
 // fresh returns a deep copy (the catalogue values must never become part of a document themselves).
 func fresh(v any) any {
 	switch x := v.(type) {
 	case map[string]any:
 		out := map[string]any{}
+		for k, e := range x {
+			out[k] = fresh(e)
+		}
+
+		return out
+	case map[any]any:
+		out := map[any]any{}
 		for k, e := range x {
 			out[k] = fresh(e)
 		}
@@ -191,6 +202,21 @@ func mutateDoc(t *rapid.T, doc map[string]any) (string, int) {
 			nd.del()
 
 			desc = append(desc, "delete-key")
+
+			continue
+		}
+
+		if mp, isMap := nd.get.(map[string]any); isMap && rapid.IntRange(0, 4).Draw(t, "oddKey") == 0 {
+			// an existing mapping gets one more member whose key is a number or a boolean (expressible in YAML only)
+			odd := map[any]any{}
+			for k, v := range mp {
+				odd[k] = v
+			}
+
+			odd[rapid.SampledFrom(oddKeys).Draw(t, "key")] = "x"
+			nd.set(odd)
+
+			desc = append(desc, "non-string-key-added")
 
 			continue
 		}
@@ -271,10 +297,15 @@ func TestMalformedRuleSetsAreRejectedNotFatal(t *testing.T) {
 			ct  string
 		)
 
+		var jerr error
+
 		if rapid.Bool().Draw(t, "asJSON") {
-			raw, _ = json.Marshal(doc)
+			raw, jerr = json.Marshal(doc)
 			ct = "application/json"
-		} else {
+		}
+
+		if ct == "" || jerr != nil {
+			// (documents with non-string keys exist in YAML only)
 			raw, _ = yaml.Marshal(doc)
 			ct = "application/yaml"
 		}
@@ -483,7 +514,7 @@ func TestKeyStoreReloadsAreRejectedNotFatal(t *testing.T) {
 
 	rapid.Check(t, func(t *rapid.T) {
 		h := hs[rapid.IntRange(0, len(hs)-1).Draw(t, "holder")]
-		kind := rapid.SampledFrom([]string{"empty", "certs-only", "unsupported-key", "truncated", "blocks-dropped", "blocks-reordered", "garbage", "bitflip", "valid-other", "encrypted-without-password", "duplicate-key", "blocks-duplicated", "blocks-edited", "blocks-edited"}).Draw(t, "kind")
+		kind := rapid.SampledFrom([]string{"empty", "certs-only", "unsupported-key", "truncated", "blocks-dropped", "blocks-reordered", "garbage", "bitflip", "valid-other", "encrypted-without-password", "duplicate-key", "blocks-duplicated", "blocks-edited", "blocks-edited", "cyclic-issuers"}).Draw(t, "kind")
 
 		var content []byte
 
@@ -547,6 +578,26 @@ func TestKeyStoreReloadsAreRejectedNotFatal(t *testing.T) {
 					j := rapid.IntRange(0, len(blocks)).Draw(t, "to")
 					blocks = append(blocks[:j], append([]*pem.Block{b}, blocks[j:]...)...)
 				}
+			}
+
+			var buf bytes.Buffer
+			for _, b := range blocks {
+				_ = pem.Encode(&buf, b)
+			}
+
+			content = buf.Bytes()
+		case "cyclic-issuers":
+			// CA bundles after a CA renewal or cross-certification: several certificates with the same subject and
+			// key id, certificates issuing each other
+			blocks := pemBlocks(validKeyStore(true, rapid.SampledFrom([]string{"ecp256", "ecp384", "rsa2048"}).Draw(t, "key")))
+			extra := rapid.SliceOfNDistinct(rapid.SampledFrom([]string{"renewed-root", "cross-signed-root", "renewed-intermediate"}), 1, 3, rapid.ID[string]).Draw(t, "extraCerts")
+
+			for _, name := range extra {
+				blocks = append(blocks, pemBlocks(oddCert(name))...)
+			}
+
+			if rapid.Bool().Draw(t, "shuffle") {
+				blocks = rapid.Permutation(blocks).Draw(t, "order")
 			}
 
 			var buf bytes.Buffer
